@@ -1,6 +1,13 @@
 package sym
 
 import (
+	"fmt"
+	"go/token"
+	"strings"
+	"time"
+
+	"golang.org/x/tools/go/ssa"
+
 	"verif/engine/smt"
 )
 
@@ -95,5 +102,145 @@ func init() {
 			return Tuple{d, Iface{}}, true
 		}
 		return nil, false
+	}
+}
+
+// ---------------------------------------------------------------------
+// time.Time.Format / time.Parse: native on concrete operands; otherwise
+// uninterpreted functions of (layout, instant, zone) resp. (layout, text),
+// with the round-trip law parse(format(t)) = t-to-the-second applied when
+// the parsed text is syntactically a format term of the same layout in UTC.
+
+const unixToInternal = 62135596800
+
+// zoneID gives a *time.Location value a small identity: 0 for nil and the
+// UTC singleton, a fresh number per other location object.
+func (in *Interp) zoneID(loc Value) int {
+	p, _ := loc.(*Value)
+	if p == nil {
+		return 0
+	}
+	if tp := in.prog.Pkgs["time"]; tp != nil {
+		if g, ok := tp.Members["utcLoc"].(*ssa.Global); ok {
+			if in.global(g) == p {
+				return 0
+			}
+		}
+	}
+	key := fmt.Sprintf("zone:%p", p)
+	if v, ok := in.labels[key]; ok {
+		return int(v.(Int).V)
+	}
+	id := 1
+	for k := range in.labels {
+		if strings.HasPrefix(k, "zone:") {
+			id++
+		}
+	}
+	in.labels[key] = mkInt(uint64(id), 64)
+	return id
+}
+
+// nativeTime converts a concrete time.Time value (UTC or nil location).
+func (in *Interp) nativeTime(v Value) (time.Time, bool) {
+	s, ok := v.(Struct)
+	if !ok || len(s) != 3 {
+		return time.Time{}, false
+	}
+	wall, ok1 := s[0].(Int)
+	ext, ok2 := s[1].(Int)
+	if !ok1 || !ok2 || in.zoneID(s[2]) != 0 {
+		return time.Time{}, false
+	}
+	if wall.V&(1<<63) != 0 {
+		return time.Time{}, false // monotonic reading present
+	}
+	nsec := int64(wall.V & (1<<30 - 1))
+	return time.Unix(ext.Signed()-unixToInternal, nsec).UTC(), true
+}
+
+func (in *Interp) timeValue(t time.Time) Value {
+	t = t.UTC()
+	sec := t.Unix() + unixToInternal
+	return Struct{mkInt(uint64(t.Nanosecond()), 64), mkInt(uint64(sec), 64), (*Value)(nil)}
+}
+
+func init() {
+	intrinsics["(time.Time).Format"] = func(in *Interp, fr *frame, a []Value) (Value, bool) {
+		layout, ok := a[1].(string)
+		if !ok {
+			panic(unsupported("time.Format with a symbolic layout"))
+		}
+		if nt, ok := in.nativeTime(a[0]); ok {
+			return nt.Format(layout), true
+		}
+		s := a[0].(Struct)
+		zone := in.zoneID(s[2])
+		return OStr{in.ctx.App("time_format:"+layout, smt.SeqSort, in.term(s[0]), in.term(s[1]), in.ctx.BVConst(uint64(zone), 8))}, true
+	}
+	parse := func(in *Interp, layoutV, textV Value) Value {
+		layout, ok := layoutV.(string)
+		if !ok {
+			panic(unsupported("time.Parse with a symbolic layout"))
+		}
+		if text, ok := textV.(string); ok {
+			t, err := time.Parse(layout, text)
+			if err != nil {
+				return Tuple{Struct{mkInt(0, 64), mkInt(0, 64), (*Value)(nil)}, in.newError(err.Error())}
+			}
+			return Tuple{in.timeValue(t), Iface{}}
+		}
+		tt := in.seqTerm(textV)
+		c := in.ctx
+		if tt.Op == smt.OpApp && tt.Name == "time_format:"+layout && tt.Args[2].Op == smt.OpBVConst && tt.Args[2].Val == 0 {
+			// law: parsing what Format produced for a UTC time gives the
+			// instant back, to the second (the layouts in use carry no
+			// fractional seconds)
+			return Tuple{Struct{mkInt(0, 64), fromTerm(tt.Args[1]), (*Value)(nil)}, Iface{}}
+		}
+		okT := c.App("time_parse_ok:"+layout, smt.BoolSort, tt)
+		if !in.decide(okT) {
+			return Tuple{Struct{mkInt(0, 64), mkInt(0, 64), (*Value)(nil)}, in.newError("parsing time: symbolic failure")}
+		}
+		sec := c.App("time_parse_sec:"+layout, smt.BV(64), tt)
+		return Tuple{Struct{mkInt(0, 64), fromTerm(sec), (*Value)(nil)}, Iface{}}
+	}
+	intrinsics["time.Parse"] = func(in *Interp, fr *frame, a []Value) (Value, bool) { return parse(in, a[0], a[1]), true }
+	intrinsics["time.ParseInLocation"] = func(in *Interp, fr *frame, a []Value) (Value, bool) {
+		if in.zoneID(a[2]) != 0 {
+			if _, ok := a[1].(string); ok {
+				return nil, false
+			}
+			panic(unsupported("time.ParseInLocation of symbolic text outside UTC"))
+		}
+		return parse(in, a[0], a[1]), true
+	}
+	// TimeIn(name, zone): an arbitrary instant carried in one of three
+	// zones: 0 UTC, 1 a fixed +01:00 zone, 2 a fixed -05:00 zone.
+	intrinsics[vrtPkg+".TimeIn"] = func(in *Interp, fr *frame, a []Value) (Value, bool) {
+		name := in.freshName(a[0].(string))
+		t := in.ctx.Var(name, smt.BV(64))
+		in.inputs = append(in.inputs, inputVar{Name: name, Kind: "time", Terms: []*smt.Term{t}, W: 64})
+		c := in.ctx
+		in.assume(fromTerm(c.And(c.Cmp(smt.OpSLe, c.BVConst(86400, 64), t), c.Cmp(smt.OpSLe, t, c.BVConst(maxInternalSec-86400, 64)))))
+		zone := int(asInt64(a[1]))
+		var loc Value = (*Value)(nil)
+		if zone != 0 {
+			key := fmt.Sprintf("fixedzone:%d", zone)
+			if l, ok := in.labels[key]; ok {
+				loc = l
+			} else {
+				fz := in.prog.lookupFunc("time", "FixedZone")
+				off := int64(3600)
+				nm := "VZ1"
+				if zone == 2 {
+					off = -18000
+					nm = "VZ2"
+				}
+				loc = in.call(fr, token.NoPos, fz, []Value{nm, mkInt(uint64(off), 64)})
+				in.labels[key] = loc
+			}
+		}
+		return Struct{mkInt(0, 64), SymInt{t}, loc}, true
 	}
 }
